@@ -3,6 +3,7 @@ package main
 import (
 	"fmt"
 	"go/token"
+	"go/types"
 	"strings"
 
 	"golang.org/x/tools/go/ssa"
@@ -155,10 +156,18 @@ func runC17(c *Ctx) {
 	// map entry when it consumes the heap item; any other condition lets a live deadline go untracked)
 	pairs := map[string]string{"expireQueue": "expires", "removeQueue": "removes"}
 	for _, fname := range []string{"(*historyHub).add", "(*historyHub).getLocked"} {
-		fn := c.Fn("C17.R4", "centrifuge", fname)
-		if fn == nil {
+		root := c.Fn("C17.R4", "centrifuge", fname)
+		if root == nil {
 			continue
 		}
+		// (the scheduling block may be shared through a helper; it is then judged there, once per caller)
+		for _, fn := range w.Deep(root, 1).Funcs {
+			if fn != root && (fn.Signature.Recv() == nil || typeShort(fn.Signature.Recv().Type()) != "historyHub") {
+				continue
+			}
+			if fn != root && (FuncName(fn) == "(*centrifuge.historyHub).add" || FuncName(fn) == "(*centrifuge.historyHub).getLocked") {
+				continue
+			}
 		for _, p := range CallsIn(fn, false, w.calleeIs("heap.Push")) {
 			qd := D(p.Common().Args[0])
 			for q, m := range pairs {
@@ -191,6 +200,7 @@ func runC17(c *Ctx) {
 				}
 				c.Check("C17.R4", p, m+" deadline stored next to the push", wrote, "heap item without a deadline entry is dropped by the sweeper")
 			}
+		}
 		}
 	}
 	c.Floor("C17.R4", 6)
@@ -740,13 +750,31 @@ func runC24(c *Ctx) {
 		dx, dy := D(b.X), D(b.Y)
 		return (strings.HasSuffix(dx, ".ExpireAt") && strings.HasSuffix(dy, ".expireAt")) || (strings.HasSuffix(dy, ".ExpireAt") && strings.HasSuffix(dx, ".expireAt"))
 	}
+	// phase 2 lives in the sweep function or in the per-key helper it calls for every collected event
+	p2fn := sweep
+	hasStateDelete := func(f *ssa.Function) bool {
+		for _, d := range builtinCalls(f, "delete") {
+			if strings.HasSuffix(D(d.Call.Args[0]), ".state") {
+				return true
+			}
+		}
+		return false
+	}
+	if !hasStateDelete(sweep) {
+		for _, g := range w.Deep(sweep, 1).Funcs {
+			if g != sweep && hasStateDelete(g) {
+				p2fn = g
+				break
+			}
+		}
+	}
 	var phase2 []ssa.Instruction
-	for _, d := range builtinCalls(sweep, "delete") {
+	for _, d := range builtinCalls(p2fn, "delete") {
 		if strings.HasSuffix(D(d.Call.Args[0]), ".state") {
 			phase2 = append(phase2, d)
 		}
 	}
-	for _, a := range CallsIn(sweep, false, streamAddCall(w)) {
+	for _, a := range CallsIn(p2fn, false, streamAddCall(w)) {
 		phase2 = append(phase2, a)
 	}
 	for _, s := range phase2 {
@@ -754,7 +782,7 @@ func runC24(c *Ctx) {
 			"a key refreshed, removed or republished between the snapshot and phase 2 would be removed although it is live (or removed twice)")
 	}
 	c.Floor("C24.R2", 2)
-	for _, e := range CallsIn(sweep, false, func(ci ssa.CallInstruction) bool {
+	for _, e := range CallsIn(p2fn, false, func(ci ssa.CallInstruction) bool {
 		return ci.Common().IsInvoke() && ci.Common().Method.Name() == "HandlePublication"
 	}) {
 		// dispatch flag: φ that is true only on the removal path
@@ -764,13 +792,14 @@ func runC24(c *Ctx) {
 	}
 	// refreshed entry re-queued: on the `exists && ExpireAt > now` edge a heap.Push happens
 	requeue := false
-	for _, p := range CallsIn(sweep, false, w.calleeIs("heap.Push")) {
+	for _, p := range CallsIn(p2fn, false, w.calleeIs("heap.Push")) {
 		if GuardedBy(p, func(g Guard) bool {
 			b, ok := g.Cond.(*ssa.BinOp)
-			return ok && g.Pol && b.Op == token.GTR && strings.HasSuffix(D(b.X), ".ExpireAt") && strings.Contains(D(g.Cond), "UnixMilli")
+			// the deadline compared with the current time (read in place, or handed to the per-key helper)
+			return ok && g.Pol && b.Op == token.GTR && strings.HasSuffix(D(b.X), ".ExpireAt") && (strings.Contains(D(g.Cond), "UnixMilli") || paramOfKind(b.Y, types.Int64))
 		}) && len(phase2) > 0 && !GuardedBy(p, sameDeadline) {
 			for _, s := range phase2 {
-				if lh := loopHeaderOf(s.Block()); lh != nil && lh.Dominates(p.Block()) {
+				if lh := loopHeaderOf(s.Block()); (lh != nil && lh.Dominates(p.Block())) || p2fn != sweep {
 					requeue = true
 				}
 			}
@@ -800,7 +829,15 @@ func runC24(c *Ctx) {
 	c.Anchor("C24.R3", "stores of stateEntry.ExpireAt", k > 0)
 
 	// ---- R4: every iteration of the phase-2 loop reaches the re-validation
-	if len(phase2) > 0 {
+	if len(phase2) > 0 && p2fn != sweep {
+		// the loop body is a per-key helper: every path through it re-validates the key
+		reval := func(in ssa.Instruction) bool {
+			lk, ok := in.(*ssa.Lookup)
+			return ok && strings.HasSuffix(D(lk.X), "mapHub.channels")
+		}
+		bad := PathQ{Stop: reval, Goal: isReturn}.FromEntry(p2fn)
+		c.CheckAt("C24.R4", FuncName(p2fn)+": every phase-2 iteration re-validates its key under the locks", w.Pos(p2fn.Pos()), bad == nil, "phase 1 already popped the key's only heap item; an iteration that skips the key (e.g. on lock contention) leaves an expired key in state forever: no removal is appended or broadcast")
+	} else if len(phase2) > 0 {
 		h := loopHeaderOf(phase2[0].Block())
 		if c.Anchor("C24.R4", "phase-2 loop of expireKeysIteration", h != nil) {
 			reval := func(in ssa.Instruction) bool {
